@@ -328,6 +328,16 @@ func (sc *serverConn) newWriterAndRequest(st *stream, f *SynStreamFrame) (
 		state.SpdyErrBadRequest.Inc(1)
 		return nil, nil, StreamError{st.id, ProtocolError}
 	}
+	// A SPDY header block carries no syntax guarantee: reject what cannot be written as
+	// one well-formed HTTP/1.x request (request splitting / header injection).
+	badRequest := !validLinePart(method) || !validLinePart(path) || !validLinePart(host)
+	for name := range header {
+		badRequest = badRequest || !validLinePart(name)
+	}
+	if badRequest {
+		state.SpdyErrBadRequest.Inc(1)
+		return nil, nil, StreamError{st.id, ProtocolError}
+	}
 	bodyOpen := st.state == stateOpen
 	if method == "HEAD" && bodyOpen {
 		// HEAD requests can't have bodies
